@@ -51,6 +51,13 @@ if HP_EXTRA not in _run.PRELUDE_EXTRA:
     _run.PRELUDE_EXTRA.append(HP_EXTRA)
 
 
+def unhx(h: str) -> str:
+    try:
+        return bytes.fromhex(h[1:]).decode("utf-8", "replace") if h.startswith("x") else h
+    except ValueError:
+        return h
+
+
 def placeholders(lit: str):
     """names used by a format literal (independent of the model: the harness's own scan)"""
     s = lit.replace("{{", "").replace("}}", "")
